@@ -207,7 +207,7 @@ func (c *Ctx) Violations() int {
 
 // Infra aborts the check with exit 2 (never a violation).
 func (c *Ctx) Infra(format string, a ...any) {
-	fmt.Fprintf(os.Stderr, "INFRA property=%s: %s\n", c.ID, fmt.Sprintf(format, a...))
+	fmt.Printf("INFRA property=%s: %s\n", c.ID, fmt.Sprintf(format, a...))
 	os.Exit(ExitInfra)
 }
 
